@@ -30,7 +30,7 @@ def budget(tier):
 
 
 def gen(R, tier):
-    kind = R.choice(['cut', 'cutw', 'levels', 'fragset', 'fragset', 'shared', 'multicut', 'explicit_h'])
+    kind = R.choice(['cut', 'cutw', 'levels', 'fragset', 'fragset', 'shared', 'multicut', 'explicit_h', 'explicit_h'])
     if kind == 'cutw':
         case = resgen.gen_cut_string(R, tier, weights=True)
     elif kind == 'explicit_h':
